@@ -126,6 +126,28 @@ def work(task):
             bad = connectivity_violations(lgates, oconn.edge_set(n, conn))
             if bad:
                 p.violate(key + "connectivity", "%s entry %d uses %s on uncoupled pair %s" % (fname, i, bad[0][1], list(bad[0][2])), case)
+        # the entry must stay what it is while its circuit is being used: request the entry's own graph state (in a random
+        # generating set, random signs) through the public API, edit the delivered circuit the way callers do, read the entry again
+        if advertised:
+            from htstabilizer.stabilizer_circuits import get_preparation_circuit, compress_preparation_circuit
+            import random as _random
+            rnd = _random.Random(i * 7919 + n)
+            gg = [(x, z, rnd.getrandbits(1)) for x, z, _ in lcorbit.graph_gens(gid, n)]
+            if i % 2:
+                gg = groups.random_presentation(gg, n, rnd)
+            from ..workload import stabilizers as ws
+            ok, out = call(lambda: get_preparation_circuit(Stabilizer(ws.strings(gg, n)), conn) if i % 3 else
+                           compress_preparation_circuit(info.parse_circuit(), conn))
+            if ok:
+                call(out.cz, 0, n - 1)
+                call(out.h, 0)
+                call(out.measure_all)
+                ok2, again = call(lambda: circuit_lookup.stabilizer_circuit_lookup(n, conn, i))
+                ok3, qc2 = call(again.parse_circuit) if ok2 else (False, None)
+                p.counters["entries re-read after a caller edited a circuit delivered for the entry's own graph state"] += 1
+                if not ok3 or gates_of(qc2) != ogates or (again.graph_id, again.cost, again.depth) != (gid, cost, depth):
+                    p.violate(key + "changed-by-use", "%s entry %d reads [%s] after a caller appended gates to the circuit delivered for the entry's own graph "
+                              "state; the file says [%s]" % (fname, i, fmt_gates(gates_of(qc2))[:200] if ok3 else "?", fmt_gates(ogates)), case)
         p.counters["entries " + ("advertised" if advertised else "stray")] += 1
         if len(p.samples) < 1 and cost >= 2:
             p.sample({"file": fname, "line": i, "text": line, "oracle_cost_depth": [c, d], "orbit_label": lab})
